@@ -1259,8 +1259,7 @@ impl<'m, 'a> Driver<'m, 'a> {
             return Ok(false);
         }
         let id = *rng.pick(&cands);
-        let name = format!("xf{}", self.model.next_uid);
-        self.model.next_uid += 1;
+        let name = self.export_name("xf", rng);
         let m = &mut *self.m;
         let n2 = name.clone();
         let r = catch(move || m.exports.add_export_func(n2, id, None));
@@ -1268,6 +1267,27 @@ impl<'m, 'a> Driver<'m, 'a> {
         self.model.flat.insert(format!("export[{}]", self.model.n_exports), format!("{} func {}", name, self.model.funcs[&id].ident));
         self.model.n_exports += 1;
         Self::err("ModuleExports::add_export_func", r)
+    }
+
+    /// name for an added export: fresh, or (1 in 3, when there is one) the name of an export that was deleted earlier in the
+    /// history and is not in use now
+    fn export_name(&mut self, prefix: &str, rng: &mut Rng) -> String {
+        let live: Vec<String> = (0..self.model.n_exports)
+            .filter_map(|i| self.model.flat.get(&format!("export[{}]", i)).map(|v| v.split(' ').next().unwrap_or("").to_string()))
+            .collect();
+        let freed: Vec<String> = self
+            .model
+            .log
+            .iter()
+            .filter_map(|l| l.strip_prefix("exports.delete ").map(|n| n.to_string()))
+            .filter(|n| !n.is_empty() && !live.contains(n))
+            .collect();
+        if !freed.is_empty() && rng.chance(1, 3) {
+            return rng.pick(&freed).clone();
+        }
+        let name = format!("{}{}", prefix, self.model.next_uid);
+        self.model.next_uid += 1;
+        name
     }
 
     fn op_delete_export(&mut self, rng: &mut Rng) -> Result<bool, (String, PanicInfo)> {
@@ -1548,13 +1568,38 @@ impl<'m, 'a> Driver<'m, 'a> {
                 (Value::F64(f64::from_bits(bits)), O::F64Const { value: wasmparser::Ieee64::from(f64::from_bits(bits)) })
             }
         };
-        let sops = vec![sym::sym_op(&op).unwrap()];
         let tystr = self.model.flat.get(&format!("global[{}].type", e.ident)).cloned().unwrap_or_default();
+        // floats, 1 in 4: two replacements in a row, a zero and then the zero of the other sign (bit-exact: the second must win)
+        let mut first: Option<Value> = None;
+        let (v, op) = if matches!(e.vt.unwrap(), VT::F32 | VT::F64) && rng.chance(1, 4) {
+            let neg = rng.bool();
+            let (z, zop, other) = if e.vt.unwrap() == VT::F32 {
+                let b = if neg { 0x8000_0000u32 } else { 0 };
+                (Value::F32(f32::from_bits(b)), O::F32Const { value: wasmparser::Ieee32::from(f32::from_bits(b)) }, Value::F32(f32::from_bits(b ^ 0x8000_0000)))
+            } else {
+                let b = if neg { 0x8000_0000_0000_0000u64 } else { 0 };
+                (Value::F64(f64::from_bits(b)), O::F64Const { value: wasmparser::Ieee64::from(f64::from_bits(b)) }, Value::F64(f64::from_bits(b ^ 0x8000_0000_0000_0000)))
+            };
+            if self.model.used_idents.contains(&sym::global_ident(&tystr, &[sym::sym_op(&zop).unwrap()])) {
+                (v, op)
+            } else {
+                first = Some(other);
+                (z, zop)
+            }
+        } else {
+            (v, op)
+        };
+        let sops = vec![sym::sym_op(&op).unwrap()];
         let new_ident = sym::global_ident(&tystr, &sops);
         let init_str = self.init_sym_str(&sops);
-        self.model.log.push(format!("mod_global_init_expr GlobalID({}) = {} -> {}", id, e.ident, init_str));
+        self.model.log.push(format!("mod_global_init_expr GlobalID({}) = {} -> {}{}", id, e.ident, if first.is_some() { "zero of the other sign, then " } else { "" }, init_str));
         let m = &mut *self.m;
-        let r = catch(move || m.mod_global_init_expr(GlobalID(id), InitExpr::new(vec![InitInstr::Value(v)])));
+        let r = catch(move || {
+            if let Some(f) = first {
+                m.mod_global_init_expr(GlobalID(id), InitExpr::new(vec![InitInstr::Value(f)]));
+            }
+            m.mod_global_init_expr(GlobalID(id), InitExpr::new(vec![InitInstr::Value(v)]))
+        });
         // identity of a local global is its (type, initialiser): re-key
         self.model.flat.remove(&format!("global[{}].type", e.ident));
         self.model.flat.remove(&format!("global[{}].init", e.ident));
@@ -1690,8 +1735,7 @@ impl<'m, 'a> Driver<'m, 'a> {
             return Ok(false);
         }
         let id = *rng.pick(&ml);
-        let name = format!("xm{}", self.model.next_uid);
-        self.model.next_uid += 1;
+        let name = self.export_name("xm", rng);
         let m = &mut *self.m;
         let n2 = name.clone();
         let r = catch(move || m.exports.add_export_mem(n2, id, None));
